@@ -177,6 +177,14 @@ def work_core(task):
                     if bad:
                         ev.violations.append({"property": PID, "query": "%s [%s]" % (P, E), "reason": bad, "signature": "C04:cap:" + P + E})
                 # let
+                if len(est) == 0 and ok(re_) and re_["res"] and all(len(s_) == 0 for s_ in re_["res"]):
+                    # E leaves nothing to bind: that is an error, not a binding that eats the surrounding stack
+                    rl = run(drv, "%s let Xx := %s;" % (P, E))
+                    ev.case(key=("let0", P, E), nontrivial=True)
+                    ev.label("let-nothing-to-bind")
+                    if ok(rl) and rl["res"]:
+                        ev.violations.append({"property": PID, "query": "%s let Xx := %s;" % (P, E), "signature": "C04:let0:" + P + E,
+                                              "reason": "E leaves no value, yet `let` yields %d stack(s): %r" % (len(rl["res"]), [full(s_) for s_ in rl["res"][:2]])})
                 if len(est) >= 1:
                     rl = run(drv, "%s let Xx := %s;" % (P, E))
                     if ok(rl) and ok(re_) and not rl["stderr"] and not re_["stderr"]:
